@@ -221,6 +221,38 @@ class MirrorCompare(ast.NodeTransformer):
         return node
 
 
+def keywordise(repo, srcs):
+    """f(a, b, c) -> f(a, b=b', c=c') for calls of module-level package functions whose signature is known (no *args): trailing
+    positional arguments become keyword arguments"""
+    m = model.Model(repo=repo)
+    out = {}
+    for rel, src in srcs.items():
+        mod = rel.split('/')[-1][:-3]
+        tree = ast.parse(src)
+
+        class T(ast.NodeTransformer):
+            def visit_Call(self, node):
+                self.generic_visit(node)
+                try:
+                    fi = m.resolve_callable(mod, node.func)
+                except Exception:
+                    fi = None
+                if fi is None or fi.kind != 'function' or fi.node.args.vararg is not None or any(isinstance(a, ast.Starred) for a in node.args):
+                    return node
+                ps = [a.arg for a in fi.node.args.args]
+                if len(node.args) < 2 or len(node.args) > len(ps):
+                    return node
+                keep = node.args[:1]
+                newkw = [ast.keyword(arg=ps[i], value=a) for i, a in enumerate(node.args) if i >= 1]
+                if any(k.arg in {x.arg for x in node.keywords} for k in newkw):
+                    return node
+                node.args = keep
+                node.keywords = newkw + node.keywords
+                return node
+        out[rel] = ast.unparse(ast.fix_missing_locations(T().visit(tree))) + '\n'
+    return out
+
+
 def benign_variants(repo):
     """{name: overlay}"""
     out = {}
@@ -240,6 +272,7 @@ def benign_variants(repo):
         k: ast.unparse(ast.fix_missing_locations(AugExpand().visit(ast.parse(v)))) + '\n' for k, v in srcs.items()}
     out['if c: A else: B  ->  if not c: B else: A'] = {
         k: ast.unparse(ast.fix_missing_locations(InvertIfElse().visit(ast.parse(v)))) + '\n' for k, v in srcs.items()}
+    out['f(a, b, c)  ->  f(a, p2=b, p3=c) for package functions'] = keywordise(repo, srcs)
     out['a < b  ->  b > a (order comparisons mirrored)'] = {
         k: ast.unparse(ast.fix_missing_locations(MirrorCompare().visit(ast.parse(v)))) + '\n' for k, v in srcs.items()}
     return out
